@@ -16,7 +16,8 @@ RULE = ("Each case = one closed-loop run in virtual time: a real RTCRtpSender fe
         "Recovery: every packet lost in the recoverable phase is named by a NACK and retransmitted (as RTX with the original "
         "sequence number in front when negotiated, verbatim otherwise), and every frame sent in the recoverable and clean phases "
         "is handed over by the end of the run; every NACK lists <= 128 sequence numbers spanning at most 128. "
-        "Non-trivial = >= 1 loss recovered through NACK and >= 1 reordering; distinct = fault fingerprint.")
+        "Non-trivial = >= 1 loss recovered through NACK and >= 1 reordering; distinct = fault fingerprint."
+        ' A monitor on the real JitterBuffer.add records restarts (origin moved back to a late packet) and which frames were held at that moment; a directed stratum (index % 48 == 7) spells out the history behind the known finding late-packet-restarts-jitter-buffer.')
 ASSUMPTIONS = [
     "DTLS/SRTP bypassed (real RTCDtlsTransport object forced to 'connected', plaintext handed to the link): C04 covers the crypto path",
     "the decoder thread is replaced by a synchronous tap (queue/threading names substituted in aiortc.rtcrtpreceiver)",
